@@ -733,8 +733,8 @@ func (c *Ctx) DerivesFrom(v ssa.Value, pred func(ssa.Value) bool, depth int) boo
 				// load: follow stores to a local/captured cell
 				switch a := x.X.(type) {
 				case *ssa.Alloc:
-					for _, r := range eng.Referrers(a) {
-						if s, ok := r.(*ssa.Store); ok && s.Addr == a && rec(s.Val, d+1) {
+					for _, s := range c.P.AllocStores(a) { // (the owner's stores and those of literals capturing it)
+						if rec(s.Val, d+1) {
 							return true
 						}
 					}
